@@ -21,7 +21,8 @@ ASSUMPTIONS = [
     'oracle = complex step through the closed-form solution (matrix exponential)']
 REQUIRED = ['indiv', 'hier', 'sbml', 'dosed', 'sbml_fixed', 'posterior', 'nonfinite', 'cov', 'red', 'noncentered', 'kind:pooled',
             'kind:hetero', 'unmeasured_output_first', 'negative_outputs', 'sbml_all_mech_fixed', 'sbml_nothing_measured', 'trunc_value_on_boundary',
-            'sbml_renamed_parameters:some_mech_fixed']
+            'sbml_renamed_parameters:some_mech_fixed', 'unneeded_covariates:bare_noncentered',
+            'sbml:s1_first_on_enabled_model']
 
 
 @st.composite
@@ -104,6 +105,10 @@ def _spec(draw):
     h['kind'] = 'hier'
     h['bad'] = bad
     return h
+
+
+def extra_cases(tier):
+    return [dict(h, kind='hier', bad=None) for h in hbuild.unneeded_cov_cases()]
 
 
 def _scale_positions(pop, n_ids, offset=0):
@@ -243,6 +248,15 @@ def check(case):
                 return val
             if s['prior'] is not None:
                 obj = chi.LogPosterior(obj, llbuild.build_prior(s['prior']))
+            # the user switched the model's sensitivities on before handing it over, and the first evaluation of the
+            # likelihood built from it is the one with sensitivities (a gradient-based sampler)
+            M.enable_sensitivities(True)
+            obj_s = chi.LogLikelihood(M, llbuild.build_error_models(ll), [np.array(o) for o in ll['obs']],
+                                      [np.array(t) for t in ll['times']])
+            if fixed:
+                obj_s.fix_parameters({names[i]: float(v) for i, v in fixed.items()})
+            if s['prior'] is not None:
+                obj_s = chi.LogPosterior(obj_s, llbuild.build_prior(s['prior']))
         elif s['kind'] == 'indiv':
             obj = llbuild.build_ll(s['ll'])
             x = np.array(s['params'], dtype=float)
@@ -281,6 +295,14 @@ def check(case):
             case.true(not np.isfinite(plain), 'plain evaluation is finite (%r) where the reference is %r' % (plain, want))
     if plain is None:
         return
+
+    if np.isfinite(plain) and s['kind'] == 'sbml':
+        with case.clause('s1_first_on_enabled_model'):
+            sc_s, g_s = obj_s.evaluateS1(x.copy())
+            case.close(sc_s, plain, rtol=1e-9, atol=1e-10, what='score of evaluateS1 as the FIRST evaluation of a likelihood '
+                       'built from a model with sensitivities enabled')
+            case.close(obj_s(x.copy()), plain, rtol=1e-9, atol=1e-10, what='plain evaluation afterwards')
+            case.labels.append('sbml:s1_first_on_enabled_model')
 
     if np.isfinite(plain):
         with case.clause('s1_succeeds'):
